@@ -1284,7 +1284,12 @@ func (m *Memberlist) deadNode(d *dead) {
 			return // Do not mark ourself dead
 		}
 
-		// If we are leaving, we broadcast and wait
+		// If we are leaving, we broadcast and wait. Whoever signed the
+		// claim, this is our departure: announce it as such so that peers
+		// record us as having left rather than as failed.
+		if d.From != d.Node {
+			d = &dead{Incarnation: d.Incarnation, Node: d.Node, From: d.Node}
+		}
 		m.encodeBroadcastNotify(d.Node, deadMsg, d, m.leaveBroadcast)
 	} else {
 		m.encodeAndBroadcast(d.Node, deadMsg, d)
